@@ -45,6 +45,8 @@ pub const AUDITED_BEST_MATCH: &[(&str, &str)] = &[
     ("zh", "zh"), ("zh-Hant", "zh-Hant"), ("zh-Hant-TW", "zh-Hant"), ("zh-Hant-HK,zh;q=0.8", "zh-Hant"), ("zh-CN", "zh"),
     ("zh-Hans-CN,en;q=0.5", "zh"), ("es,zh-Hant-TW;q=0.7", "zh-Hant"), ("de,en;q=0.5", "de"), ("es", "en"),
     ("es-ES,es,pt-PT,pt,it,nl,sv,da,pl,cs,fr-FR,fr,en", "fr"), ("es,it,nl,sv,da,pl,cs,fi,nb,hu,ro,de-AT;q=0.1", "de"),
+    // variant subtags: a configured locale without variants is a less specific form of the entry
+    ("de-1996,fr", "de"), ("de-CH-1901", "de"), ("ca-ES-valencia,fr", "fr"), ("fr-CA-fonipa", "fr-CA"),
     ("ar", "ar"), ("ar-EG,en;q=0.5", "ar"), ("he,ar;q=0.3", "ar"),
     ("es, fr", "fr"), ("fr-CA, fr;q=0.9, en;q=0.8", "fr-CA"), ("it , de", "de"), ("es,\tpt-BR", "pt-br"),
 ];
